@@ -249,6 +249,15 @@ def gen_prog(rng, cls):
         other = "cfg 0 cam=4 sto=2 w=%d h=%d type=%d n=%d" % (w, h, t, rng.choice([2, 4, 7]))
         prog = [cfg0, "configure", "start", "map 0", "unmap 0 all", "monwait 0", "stop", other, "configure", "start",
                 "map 0", "unmap 0 all", "monwait 0", "stop"] + rng.choice([[], [cfg0, "configure", "start", "map 0", "unmap 0 all", "monwait 0", "stop"]])
+    elif cls == "reconfavg":
+        # C07: averaging is switched off by an acquire_configure while the acquisition runs (the source asks the filter to drop its window
+        # and waits for the acknowledgement), then abort / stop: they return whatever the window held at that moment
+        k = rng.choice([2, 2, 3]); fb32 = R.frame_bytes(w, h, 4)
+        ring = rng.choice([max(fb, fb32) * 3 + 8, max(fb, fb32) * 6])
+        on = "cfg 0 cam=0 sto=2 w=%d h=%d type=%d n=1000 avg=%d" % (w, h, t, k)
+        off = "cfg 0 cam=0 sto=2 w=%d h=%d type=%d n=1000" % (w, h, t)
+        prog = [on, "configure", "start", "sleep %d" % rng.randrange(1, 14), off, "configure", "sleep %d" % rng.randrange(0, 10),
+                rng.choice(["abort", "abort", "stop"]), cfg0, "configure", "start", "stop"]
     elif cls == "setfail":
         # C11 / C08: a re-configuration switches stream 0 to another storage that opens but rejects the settings; the stream must not
         # be left with a handle to a device that was closed on the way (the replacement is closed or kept, the old one is gone)
